@@ -214,7 +214,7 @@ def _branch_and_price(
     total_cg_iters = 0
 
     # Solve root node LP via column generation
-    x_vals, lp_obj, cg_iters = _solve_node_lp(
+    x_vals, lp_obj, cg_iters, converged = _solve_node_lp(
         columns, column_set, demands, {}, pricing_fn, is_cutting_stock, max_iter, eps
     )
     total_cg_iters += cg_iters
@@ -225,7 +225,8 @@ def _branch_and_price(
     # Only the root LP value is a safe lower bound: below the root, pricing does not see the
     # duals of the branching rows and a restricted master made infeasible by a column bound
     # is discarded without looking for new columns, so node bounds may overestimate.
-    root_bound = ceil(lp_obj - eps)
+    # Without a converged root (max_iter reached) there is no lower bound at all.
+    root_bound = ceil(lp_obj - eps) if converged else -float("inf")
 
     def proven(obj):
         return (obj - root_bound) / max(abs(obj), 1e-10) < gap_tol
@@ -235,7 +236,8 @@ def _branch_and_price(
     if frac_idx is None:
         solution = _build_solution(x_vals, columns, eps)
         if _covers(solution, demands):
-            return Result(solution, lp_obj, 0, total_cg_iters, Status.OPTIMAL)
+            status = Status.OPTIMAL if proven(lp_obj) else Status.FEASIBLE
+            return Result(solution, lp_obj, 0, total_cg_iters, status)
 
     # Initialize B&B
     best_solution: dict[tuple[int, ...], int] | None = None
@@ -265,7 +267,7 @@ def _branch_and_price(
         col_bounds = {idx: (lo, hi) for idx, lo, hi in node.column_bounds}
 
         # Solve node LP with column generation
-        x_vals, lp_obj, cg_iters = _solve_node_lp(
+        x_vals, lp_obj, cg_iters, _ = _solve_node_lp(
             columns, column_set, demands, col_bounds, pricing_fn, is_cutting_stock, max_iter, eps
         )
         total_cg_iters += cg_iters
@@ -317,14 +319,18 @@ def _branch_and_price(
 
 
 def _solve_node_lp(columns, column_set, demands, col_bounds, pricing_fn, is_cutting_stock, max_iter, eps):
-    """Solve LP relaxation at a B&B node via column generation."""
+    """Solve LP relaxation at a B&B node via column generation.
+
+    The last value tells whether pricing proved that no improving column is left.
+    """
     cg_iters = 0
+    converged = False
 
     for _ in range(max_iter):
         x_vals, duals, lp_obj = _solve_bounded_master_lp(columns, demands, col_bounds, eps)
 
         if lp_obj == float("inf"):
-            return x_vals, lp_obj, cg_iters
+            return x_vals, lp_obj, cg_iters, converged
 
         # Pricing
         new_col, pricing_value = pricing_fn(duals)
@@ -332,9 +338,11 @@ def _solve_node_lp(columns, column_set, demands, col_bounds, pricing_fn, is_cutt
         # Check reduced cost
         if is_cutting_stock:
             if pricing_value <= 1.0 + eps:
+                converged = True
                 break
         else:
             if new_col is None or pricing_value >= -eps:
+                converged = True
                 break
 
         if new_col is not None and new_col not in column_set:
@@ -345,7 +353,7 @@ def _solve_node_lp(columns, column_set, demands, col_bounds, pricing_fn, is_cutt
 
     # Final solve
     x_vals, duals, lp_obj = _solve_bounded_master_lp(columns, demands, col_bounds, eps)
-    return x_vals, lp_obj, cg_iters
+    return x_vals, lp_obj, cg_iters, converged
 
 
 def _solve_bounded_master_lp(columns, demands, col_bounds, eps):
